@@ -92,6 +92,50 @@ def run(ctx):
             ctx.nontriv((tuple(aln), f))
         if len(ctx.samples) < 3 and len(aln) <= 3 and len(aln[0][1]) <= 61:
             ctx.sample(dict(alignment=aln, fmt=f))
+    # conversion between the formats through kalign: file in format f1 -> reader -> linearised -> writer in format f2 -> reader; all ordered pairs;
+    # incl. alignments with more than 50 rows of which only late rows carry gaps (whatever decides "is this file an alignment?" sees every row)
+    cal = [a_ for a_ in alns if 2 <= len(a_[1]) and any("-" in r_ for _, r_ in a_[1])][:(12 if ctx.quick else 120)]
+    for j in range(4 if ctx.quick else 30):
+        nrow, W_ = rng.choice([51, 52, 60, 75, 110]), rng.choice([30, 60, 61, 130])
+        kind_ = rng.choice(["dna", "protein"])
+        A_ = []
+        for k in range(nrow):
+            row = gen.rand_seq(rng, gen.AA if kind_ == "protein" else gen.DNA, W_)
+            if k >= 50 + rng.randint(0, nrow - 51):
+                g0 = rng.randrange(W_ - 3)
+                row = (row[:g0] + "-" * rng.randint(1, 3) + row[g0 + 3:])[:W_].ljust(W_, "-")
+            A_.append(("r%03d" % k, row))
+        if any("-" in r_ for _, r_ in A_):
+            cal.append((kind_, A_))
+            ctx.count("conversion_late_gap_alignments")
+    cl, cmeta = [], []
+    for k, (kind, aln) in enumerate(cal):
+        for f1 in FMTS:
+            for f2 in FMTS:
+                p1, p2 = os.path.join(sc, "c06_cv_%d_%s.%s" % (k, f2, f1)), os.path.join(sc, "c06_cv_%d_%s_out.%s" % (k, f1, f2))
+                cl += ["writealn %s %s %d %s" % (p1, f1, 1 if kind == "dna" else 0, alngen.aln_args(aln)), "convert_file %s %s %s" % (p1, p2, f2), "readfile %s" % p2]
+                cmeta.append((k, f1, f2, p1, p2))
+    cch = [cl[i:i + 45] for i in range(0, len(cl), 45)]
+    with ThreadPoolExecutor(C.NCPU) as ex:
+        cres = list(ex.map(lambda ch: C.run_lines(kvh, ch, env=C.SAN_ENV, timeout=900), cch))
+    cout = []
+    for ch, (rc_, o_, e_) in zip(cch, cres):
+        cout += (o_ + [""] * len(ch))[:len(ch)]
+    for i, (k, f1, f2, p1, p2) in enumerate(cmeta):
+        ctx.evaluations += 1
+        kind, aln = cal[k]
+        for pth in (p1, p2):
+            if os.path.exists(pth):
+                os.remove(pth)
+        w, cv, r = cout[3 * i], cout[3 * i + 1], cout[3 * i + 2]
+        if w != "rc=0":
+            continue
+        exp = [(n, row.replace("-", ""), alngen.gaps_of(row)) for n, row in aln]
+        got = parse_dump(r) if cv.startswith("rc=0") else None
+        if got != exp:
+            fails.append(("converting %s -> %s through kalign loses the alignment (%s)" % (f1, f2, cv[:60] or "crash"), dict(alignment=aln, read_back=(got or [])[:6])))
+            continue
+        ctx.count("conversion_ok_%s_%s" % (f1, f2))
     # alignments as the pipeline leaves them in memory (rows carry their input position as rank; records without residues were dropped on the
     # way): write in each format through the public API, read back with kalign's reader, compare with the FASTA written by the same object
     from lib import sysrun
